@@ -109,6 +109,11 @@ func (w *WorkloadResourceRequest) Validate() error {
 	if w.CPUBind && w.CPURequest > 0 && w.CPULimit > 0 && w.CPULimit > w.CPURequest {
 		w.CPURequest = w.CPULimit
 	}
+	// a bound workload without limit is limited by the cores it is bound to: the engine derives
+	// the cpu shares of its fractional core from the limit
+	if w.CPUBind && w.CPULimit == 0 {
+		w.CPULimit = w.CPURequest
+	}
 	return nil
 }
 
